@@ -36,7 +36,11 @@ name_st = st.one_of(st.sampled_from(WORDS), ident)
 @st.composite
 def pattern_for(draw, names):
     base = draw(st.sampled_from(names)) if names and draw(st.booleans()) else draw(name_st)
-    kind = draw(st.sampled_from(['exact', 'exact', 'prefix*', '*suffix', '?', 'set', '*', 'near']))
+    kind = draw(st.sampled_from(['exact', 'exact', 'prefix*', '*suffix', '?', 'set', '*', 'near', 'facet_key']))
+    if kind == 'facet_key':
+        # entries written after the *exported key* of a histogram (name + '_histogram', as the demo README does) instead of after the instrument name:
+        # they match only instruments whose own name ends like that
+        return draw(st.sampled_from([base + '_histogram', '*_histogram', base[:max(1, len(base) // 2)] + '*_histogram', base + '_histogram_buckets']))
     if kind == 'exact':
         return base
     if kind == 'prefix*':
